@@ -220,6 +220,7 @@ def run_model(driver, outdir, timeout=3000):
     if n == 0:
         open(os.path.join(outdir, 'model.txt'), 'w').close(); return True, 0, 0.0
     t0 = time.time()
+    os.environ['VDRIVER_TABLES'] = os.path.join(outdir, 'tables.txt')
     shards = 16 if n > 20000 else 1
     if shards == 1:
         rc, out, dt = sh('%s < cases.txt > model.txt' % driver, cwd=outdir, timeout=timeout)
